@@ -70,20 +70,22 @@ type Pol struct {
 
 // Sc is the abstract scenario (RegistryOps.tla).
 type Sc struct {
-	Entries  []Entry `json:"entries"`
-	Form     string  `json:"form"`
-	Idx      string  `json:"idx"`
-	Ver      int64   `json:"ver"`
-	Hwm0     int64   `json:"hwm0"`
-	Fetch    string  `json:"fetch"`
-	Cache    string  `json:"cache"`
-	Digest   string  `json:"digest"`
-	Unsigned bool    `json:"unsigned"`
-	Pol      Pol     `json:"pol"`
-	Verifier string  `json:"verifier"`
-	Bundle   string  `json:"bundle"`
-	Valid    bool    `json:"valid"` // TRUE: connector (no install-time validation); FALSE: a processor whose module does not validate
-	Pre      bool    `json:"pre"`
+	Entries []Entry `json:"entries"`
+	Form    string  `json:"form"`
+	Idx     string  `json:"idx"`
+	Ver     int64   `json:"ver"`
+	Hwm0    int64   `json:"hwm0"`
+	Fetch   string  `json:"fetch"`
+	Cache   string  `json:"cache"`
+	// AltPayload: the archive builder writes other payload bytes of the same length (a tampered copy)
+	AltPayload bool   `json:"-"`
+	Digest     string `json:"digest"`
+	Unsigned   bool   `json:"unsigned"`
+	Pol        Pol    `json:"pol"`
+	Verifier   string `json:"verifier"`
+	Bundle     string `json:"bundle"`
+	Valid      bool   `json:"valid"` // TRUE: connector (no install-time validation); FALSE: a processor whose module does not validate
+	Pre        bool   `json:"pre"`
 }
 
 type Inst struct {
@@ -264,6 +266,9 @@ func buildArchive(id string, sc *Sc, root string) ([]byte, []string, error) {
 	for j, e := range sc.Entries {
 		name := entryName(e.Name, j, root)
 		hdr := &tar.Header{Name: name, Mode: 0o755, ModTime: time.Unix(1700000000, 0)}
+		if sc.AltPayload {
+			hdr.ModTime = time.Unix(1700000001, 0) // differs even when no entry carries a payload
+		}
 		var content []byte
 		switch e.Type {
 		case "reg":
@@ -274,6 +279,9 @@ func buildArchive(id string, sc *Sc, root string) ([]byte, []string, error) {
 				hdr.Size = 1<<30 + 1
 			default:
 				content = []byte(fmt.Sprintf("payload-%s-%d", id, j))
+				if sc.AltPayload {
+					content = []byte(fmt.Sprintf("PAYLOAD-%s-%d", id, j))
+				}
 			}
 			if e.Size != "huge" {
 				hdr.Size = int64(len(content))
@@ -503,11 +511,31 @@ func prepareX(root, id string, sc *Sc, oldMf bool, insts []Inst, markers, childr
 			if sc.Digest == "mismatch" {
 				declared = sha([]byte("some other artifact than " + in.Name))
 			}
+			// the entry as the installer itself leaves it (artifact + meta.json of the ORIGINAL bytes), then what
+			// happened to it on disk: nothing (hit), bit rot of another length (corrupt), or a replacement of the
+			// same length that is a well-formed archive with another payload (tampered)
 			content := b
-			if sc.Cache == "corrupt" {
+			switch sc.Cache {
+			case "corrupt":
 				content = []byte("bit-rotted cache entry")
+			case "tampered":
+				alt := *sc
+				alt.AltPayload = true
+				tb, _, terr := buildArchive(in.Name, &alt, root)
+				if terr != nil {
+					return nil, terr
+				}
+				if len(tb) != len(b) || bytes.Equal(tb, b) {
+					return nil, fmt.Errorf("tampered cache entry must differ from the archive and have its length (%d vs %d)", len(tb), len(b))
+				}
+				content = tb
 			}
+			meta, _ := json.Marshal(map[string]any{"sha256": declared, "size": len(b), "cachedAt": time.Unix(1700000000, 0).UTC(),
+				"sourceUrl": "https://verif.invalid/" + in.Name})
 			if err := writeFile(filepath.Join(regDir, "cache", declared, "artifact"), content); err != nil {
+				return nil, err
+			}
+			if err := writeFile(filepath.Join(regDir, "cache", declared, "meta.json"), meta); err != nil {
 				return nil, err
 			}
 		}
